@@ -137,6 +137,8 @@ struct PipHarness : Harness {
       if (op.kind == "clear" && r.chance(80)) op.kind = "add_constraint";
       op.a = { r.range(0, 1), r.range(0, 1), r.range(0, 5) };
       for (int k = 0; k < 2; ++k) { for (dimension_type j = 0; j < MAXD; ++j) op.a.push_back(r.chance(40) ? 0 : r.range(-3, 3)); op.a.push_back(r.range(-4, 4)); op.a.push_back(r.range(0, 5)); }
+      if (prop == "C15" && (op.kind == "solve" || op.kind == "is_satisfiable") && r.chance(60)) {   // C15: reload right after a solve (solved trees are what is worth reloading)
+        p.ops.push_back(op); Op dl; dl.kind = "dump_load"; dl.a = op.a; op = dl; }
       if (c14 && i >= 2 && r.chance(40)) {
         static const char* fk[] = { "alloc", "alloc", "allocs", "abandon", "abandon", "flag", "weight" };
         op.fault = fk[r.below(sizeof fk / sizeof *fk)]; op.fk = (long) r.below(100000);
@@ -153,7 +155,7 @@ struct PipHarness : Harness {
     fflush(stdout); fflush(stderr);
     pid_t g = fork();
     if (g < 0) return false;
-    if (g == 0) { signal(SIGALRM, SIG_DFL); alarm(60); ctx.reset_for_branch(); body(); ctx.flush(false); _exit(0); }
+    if (g == 0) { kit_cpu_deadline(60); ctx.reset_for_branch(); body(); ctx.flush(false); _exit(0); }
     int st = 0;
     while (waitpid(g, &st, 0) < 0 && errno == EINTR) {}
     if (ctx.sh) ctx.sh->in_branch = 0;
@@ -317,6 +319,18 @@ struct PipHarness : Harness {
     return true;
   }
 
+  // text of every node printed on its own (not only from the root); only for problems that are already solved
+  static void node_texts(const PIP_Tree_Node* n, std::ostringstream& o, int depth) {
+    if (n == nullptr || depth > 60) { o << "<bottom>\n"; return; }
+    o << "[node]\n"; n->print(o);
+    if (const PPL::PIP_Decision_Node* d = n->as_decision()) { node_texts(d->child_node(true), o, depth + 1); node_texts(d->child_node(false), o, depth + 1); }
+  }
+  static std::string tree_text(const PIP_Problem* p) {
+    std::ostringstream d; p->ascii_dump(d);
+    if (d.str().find("status: OPTIMIZED") == std::string::npos) return "";
+    std::ostringstream o; node_texts(p->solution(), o, 0); return o.str();
+  }
+
   // solve with a checkpoint budget: bounded-step liveness
   static int solve_budgeted(Ctx& ctx, const Op& op, PIP_Problem& p, const std::string& who, bool sat_only) {
     fault_arm_abandon(STEP_BUDGET);
@@ -402,6 +416,10 @@ struct PipHarness : Harness {
           std::ostringstream o2; z->ascii_dump(o2);
           if (o2.str() != o.str()) { ctx.violation("C15", "redump", kl(op, ""), "PIP_Problem re-dump differs"); continue; }
           if (!z->OK()) { ctx.violation("C15", "load-ok", kl(op, ""), "loaded PIP_Problem fails OK()"); continue; }
+          // every node of the loaded solution tree presents itself like the corresponding node of the original
+          // (print() of an inner node numbers its artificial parameters by walking up the parent links)
+          { std::string t0 = tree_text(x.p.get()), t1 = tree_text(z.get());
+            if (t0 != t1) { ctx.violation("C15", "tree-nodes-differ", kl(op, ""), "a node of the loaded solution tree prints differently from the same node of the original"); continue; } }
           x.p = std::move(z); ctx.stat("pip.reloaded"); }
         else continue;
       }
